@@ -139,6 +139,13 @@ u16 Apbp::GetSemaphore() const {
 void Apbp::MaskSemaphore(u16 bits) {
     std::lock_guard lock(impl->semaphore_mutex);
     impl->semaphore_mask = bits;
+    // A change of the mask is reflected in the signal flag immediately, and a 0 -> 1 transition of
+    // the flag interrupts the receiving side (see apbp.md)
+    bool new_signal = (impl->semaphore & ~impl->semaphore_mask) != 0;
+    if (new_signal && !impl->semaphore_master_signal && impl->semaphore_handler) {
+        impl->semaphore_handler();
+    }
+    impl->semaphore_master_signal = new_signal;
 }
 
 u16 Apbp::GetSemaphoreMask() const {
